@@ -5,7 +5,7 @@ from ..apigen import File
 from . import c11_util as U
 
 RULE = ("APIs drawn from a grammar: package out of 8 shapes (0..3 namespace segments, v1/v1beta1/v1p1beta1/no version), 1-2 target "
-        "files, 1-3 services with 1-6 RPCs (plus services that declare no RPC, alone or next to ordinary ones) whose names come from a pool with Python keywords in every letter case, leading "
+        "files, 1-3 services with 1-6 RPCs (plus services that declare no RPC, alone or next to ordinary ones, and services declared in a proto sub-package next to root-package services) whose names come from a pool with Python keywords in every letter case, leading "
         "underscores, digits/acronyms and names shared between services; request messages with 0-6 fields (reserved words, random "
         "REQUIRED flags) or non-proto-plus requests (google.iam/longrunning/protobuf); transports grpc, rest, grpc+rest; "
         "optionally a service YAML marking some RPCs internal (selective generation, generate_omitted_as_internal). "
@@ -46,6 +46,8 @@ KINDS = {"grpc": ["grpc", "grpc-async"], "rest": ["rest"]}
 # ------------------------------------------------------------------ generation of cases
 def meta_api(r, defect_case=False):
     pkg = r.choice(PACKAGES)
+    if defect_case == "subpkg":
+        pkg = r.choice([p for p in PACKAGES if re.fullmatch(r"v[0-9]+.*", p.split(".")[-1]) and "." in p])
     d = "/".join(pkg.split("."))
     nfiles = 1 if r.random() < 0.6 else 2
     files = [File(f"{d}/{n}.proto", pkg, deps=list(apigen.STD_DEPS)) for n in ["library", "extra"][:nfiles]]
@@ -90,10 +92,32 @@ def meta_api(r, defect_case=False):
                 inp = m.fqn
             svc.rpc(rn, inp, resp.fqn, http=("post", f"/v1/{sname.lower()}/r{ri}:call"), body="*")
             all_rpcs.append(f"{pkg}.{sname}.{rn}")
+    versioned = bool(re.fullmatch(r"v[0-9]+(p[0-9]+)?((alpha|beta)[0-9]*)?", pkg.split(".")[-1])) and "." in pkg
+    if versioned and (defect_case == "subpkg" or (not defect_case and r.random() < 0.15)):
+        # a service declared in a proto sub-package of the target package, next to the root-package services, with rpc
+        # names no root service has: its client is generated, gapic_metadata.json lists it, the fix-up table must too
+        sp = r.choice(["admin", "ops"])
+        g = File(f"{d}/{sp}/{sp}.proto", f"{pkg}.{sp}", deps=list(apigen.STD_DEPS) + [files[0].proto.name])
+        gs = g.service(r.choice(["AdminOps", "KeyRotation"]), host="meta.example.com", scopes="https://www.googleapis.com/auth/cloud-platform")
+        used = {x.rsplit(".", 1)[1] for x in all_rpcs}
+        own = [n for n in ["RotateKeys", "PurgeAll", "Import", "ListV2Items", "SealVault"] if n not in used][:r.randint(1, 3)]
+        for ri, rn in enumerate(own):
+            msg_i += 1
+            m = g.message(f"SubReq{msg_i}")
+            fns = r.sample(FIELD_POOL, r.randint(1, 5))
+            nums = r.sample(range(1, len(fns) + 1), len(fns))
+            for k, fn in enumerate(fns):
+                m.field(fn, nums[k], r.choice(["string", "int32", "bool"]), required=r.random() < 0.4)
+            gs.rpc(rn, m.fqn, resp.fqn, http=("post", f"/v1/{sp}/r{ri}:call"), body="*")
+            all_rpcs.append(f"{pkg}.{sp}.{gs.proto.name}.{rn}")
+        files.append(g)
     transport = r.choice(["grpc", "rest", "grpc+rest", "grpc+rest"])
     params = ["metadata", f"transport={transport}"]
     yaml = None
-    if r.random() < 0.3 and len(all_rpcs) > 1:
+    # internal methods (selective generation) are not combined with a sub-package service: on the current /repo that input fails
+    # with ClientLibrarySettingsError (settings validated against the sub-package view; reported as
+    # scratch/findings/C16-selective-generation-subpackage-view.json) — re-enable once repaired
+    if r.random() < 0.3 and len(all_rpcs) > 1 and len(files) == nfiles:
         public = r.sample(all_rpcs, r.randint(1, len(all_rpcs) - 1))
         yaml = {"type": "google.api.Service", "config_version": 3, "name": "meta.example.com",
                 "publishing": {"library_settings": [{"version": pkg, "python_settings": {"common": {"selective_gapic_generation": {
@@ -160,7 +184,7 @@ def describe(case):
                           for f in md.field]
                 internal = public is not None and f"{fp.package}.{s.name}.{m.name}" not in public
                 rpcs.append({"name": m.name, "internal": internal, "pp": pp, "fields": fields})
-            svcs.append({"name": s.name, "rpcs": rpcs})
+            svcs.append({"name": s.name, "rpcs": rpcs, "sub": [x for x in fp.package[len(package):].split(".") if x]})
     segs = package.split(".")
     version = segs[-1] if re.fullmatch(r"v[0-9]+(p[0-9]+)?((alpha|beta)[0-9]*)?", segs[-1]) and len(segs) > 1 else ""
     rest = segs[:-1] if version else segs
@@ -185,6 +209,8 @@ def extra_features(case, d):
     names = {x["name"] for s in d["svcs"] for x in s["rpcs"]}
     if any(not s["rpcs"] for s in d["svcs"]):
         out.append("service without rpcs")
+    if any(s["sub"] for s in d["svcs"]):
+        out.append("service in a proto sub-package")
     if names & set(TRANSPORT_UNSAFE):
         out.append("transport-unsafe rpc name")
     if len({n.lower() for n in names}) < len(names):
@@ -394,7 +420,7 @@ def run_e2e(ctx, cases, label="e2e"):
         for s in d["svcs"]:
             st = f"(mkS {coq.s(s['name'])} " + coq.lst(f"mkR {coq.s(x['name'])} {coq.b(x['internal'])} {coq.b(x['pp'])} []" for x in s["rpcs"]) + ")"
             for modname, fn, need in (("client.py", "client_name", True), ("async_client.py", "async_client_name", "grpc" in d["transports"])):
-                path = f"{root}services/{osnake(s['name'])}/{modname}"
+                path = f"{root}{''.join(x + '/' for x in s['sub'])}services/{osnake(s['name'])}/{modname}"
                 if path not in files:
                     if need:
                         ctx.oblige(f"T1 {lab}: {path} emitted", False, "", "T1")
@@ -430,7 +456,7 @@ def run_e2e(ctx, cases, label="e2e"):
                 if any(len(v.get("methods", [])) != 1 for v in rp.values()):
                     ctx.violation(f"service {s['name']} [{kind}]: an rpc is not mapped to exactly one method", case)
                 imp_checks.append({"client": cl.get("libraryClient", ""), "methods": [m for v in rp.values() for m in v.get("methods", [])],
-                                   "service": s["name"], "kind": kind})
+                                   "service": s["name"], "kind": kind, "subpackage": ".".join(s["sub"])})
         # ---- direct oracle (2): METHOD_TO_PARAMS against the input descriptors ----
         table = {}
         for k, v in m2p:
@@ -439,6 +465,11 @@ def run_e2e(ctx, cases, label="e2e"):
         for s in d["svcs"]:
             for x in s["rpcs"]:
                 byname.setdefault(x["name"], []).append(x)
+        for sn, sv in services.items():
+            for kind, cl in sv.get("clients", {}).items():
+                for rn in cl.get("rpcs", {}):
+                    if osnake(rn) not in table and rn not in byname:
+                        ctx.violation(f"gapic_metadata.json lists RPC {sn}.{rn} but METHOD_TO_PARAMS has no entry {osnake(rn)!r}", case)
         for name, xs in byname.items():
             key = osnake(name)
             got = table.get(key)
@@ -528,6 +559,7 @@ def run(ctx):
     cases += [c for c in (make_case("C15-t2-ci", i, True) for i in range(ctx.n(3, 20))) if c]
     cases += [c for c in (make_case("C15-t2-unsafe", i, "unsafe") for i in range(ctx.n(3, 20))) if c]
     cases += [c for c in (make_case("C15-t2-empty", i, "empty") for i in range(ctx.n(4, 24))) if c]
+    cases += [c for c in (make_case("C15-t2-subpkg", i, "subpkg") for i in range(ctx.n(4, 24))) if c]
     checks = run_t2(ctx, cases) + run_strings(ctx, ctx.n(150, 1500))
     failing, errors, nf = evaluate(ctx, "c15t2", checks, "T2")
     ctx.oblige(f"T2 model = gapic schema objects (gapic_metadata, client/method names, legacy_flattened_fields, snake/module names) "
@@ -538,6 +570,7 @@ def run(ctx):
     e2e += [c for c in (make_case("C15-e2e-ci", i, True) for i in range(ctx.n(1, 4))) if c]
     e2e += [c for c in (make_case("C15-e2e-unsafe", i, "unsafe") for i in range(ctx.n(2, 8))) if c]
     e2e += [c for c in (make_case("C15-e2e-empty", i, "empty") for i in range(ctx.n(3, 10))) if c]
+    e2e += [c for c in (make_case("C15-e2e-subpkg", i, "subpkg") for i in range(ctx.n(3, 12))) if c]
     checks = run_e2e(ctx, e2e)
     failing, errors, nf = evaluate(ctx, "c15t1", checks, "T1")
     ctx.oblige(f"T1 emitted gapic_metadata.json, METHOD_TO_PARAMS and emitted class/def names = model output "
